@@ -1,0 +1,46 @@
+//go:build verif
+
+package runtime
+
+// Read-only accessors for the verification harness (/verif, property C13).
+// Nothing here is compiled without the build tag "verif".
+
+// VerifCodeInfo is a copy of the fields of a *Code.  Consts is the code's own
+// constant slice (not copied): for a freshly compiled unit every code shares
+// one slice, in which the codes themselves appear as values.
+type VerifCodeInfo struct {
+	Code         *Code
+	Source, Name string
+	Ops          []uint32
+	Lines        []int32
+	Consts       []Value
+	UpvalueCount int16
+	RegCount     int16
+	CellCount    int16
+	UpNames      []string
+}
+
+// VerifInfo exports the fields of c.
+func (c *Code) VerifInfo() VerifCodeInfo {
+	ops := make([]uint32, len(c.code))
+	for i, op := range c.code {
+		ops[i] = uint32(op)
+	}
+	return VerifCodeInfo{
+		Code:         c,
+		Source:       c.source,
+		Name:         c.name,
+		Ops:          ops,
+		Lines:        append([]int32(nil), c.lines...),
+		Consts:       c.consts,
+		UpvalueCount: c.UpvalueCount,
+		RegCount:     c.RegCount,
+		CellCount:    c.CellCount,
+		UpNames:      append([]string(nil), c.UpNames...),
+	}
+}
+
+// VerifCodeDump exports the code of a closure.
+func VerifCodeDump(c *Closure) VerifCodeInfo {
+	return c.Code.VerifInfo()
+}
